@@ -36,6 +36,9 @@ theorem specChunk_named (senv : SEnv) (f : Nat) (n : String) (v : Val) :
       | none => none) := rfl
 theorem specChunk_goPtr (senv : SEnv) (f : Nat) (t : SType) (x : Val) :
     specChunk senv (f + 1) (.goPtr t) (.cons x .nil) = specChunk senv f t x := rfl
+theorem specChunk_chain_cons (senv : SEnv) (f : Nat) (t : SType) (x rest : Val) :
+    specChunk senv (f + 1) (.chainOf t) (.cons x rest) =
+      chainStep (specChunk senv f t x) rest (specChunk senv f (.chainOf t) rest) := rfl
 theorem specFields_cons (senv : SEnv) (f : Nat) (n : String) (t : SType) (rest : SFields) (x vs : Val) :
     specFields senv (f + 1) (.cons n t rest) (.cons x vs) =
       (match specChunk senv f t x, specFields senv f rest vs with
@@ -43,6 +46,67 @@ theorem specFields_cons (senv : SEnv) (f : Nat) (n : String) (t : SType) (rest :
       | _, _ => none) := rfl
 
 /-- more fuel never changes a result of the spec encoder -/
+theorem mapMOpt_mono {α β} (f g : α → Option β) : ∀ (l : List α) (r : List β),
+    (∀ a ∈ l, ∀ b, f a = some b → g a = some b) → mapMOpt f l = some r → mapMOpt g l = some r
+  | [], r, _, h => by simpa [mapMOpt] using h
+  | a :: as, r, hon, h => by
+    simp only [mapMOpt] at h ⊢
+    cases h1 : f a with
+    | none => simp [h1] at h
+    | some b =>
+      cases h2 : mapMOpt f as with
+      | none => simp [h1, h2] at h
+      | some bs =>
+        rw [hon a (List.mem_cons_self ..) b h1,
+          mapMOpt_mono f g as bs (fun a' ha' => hon a' (List.mem_cons_of_mem _ ha')) h2]
+        simpa [h1, h2] using h
+
+theorem specCodec_mono (vf vf' : Val → Option Chunk) (x : Val) (hv : ∀ c, vf x = some c → vf' x = some c)
+    (c : Chunk) (h : (specCodec vf).enc x = .ok c) : (specCodec vf').enc x = .ok c := by
+  simp only [specCodec] at h ⊢
+  cases h1 : vf x with
+  | none => simp [h1] at h
+  | some c' =>
+    rw [h1] at h
+    rw [hv c' h1]
+    exact h
+
+theorem keyBits_mono (n : Nat) (o o' : Option Chunk) (h : ∀ c, o = some c → o' = some c) (kb : Hashmap.Key)
+    (hk : keyBits n o = some kb) : keyBits n o' = some kb := by
+  cases o with
+  | none => simp [keyBits] at hk
+  | some c => rw [h c rfl]; exact hk
+
+theorem specDict_mono (n : Nat) (kf kf' vf vf' : Val → Option Chunk) (v : Val) (c : Chunk)
+    (hk : ∀ x c, kf x = some c → kf' x = some c) (hv : ∀ x c, vf x = some c → vf' x = some c)
+    (h : specDict n kf vf v = some c) : specDict n kf' vf' v = some c := by
+  unfold specDict at h ⊢
+  cases hp : dictParts v with
+  | none => simp [hp] at h
+  | some p =>
+    obtain ⟨ks, vs⟩ := p
+    simp only [hp] at h ⊢
+    split at h
+    · rename_i he; rw [if_pos he]; exact h
+    · rename_i he; rw [if_neg he]
+      cases hm : mapMOpt (fun kv => keyBits n (kf kv)) ks with
+      | none => simp [hm] at h
+      | some kbits =>
+        rw [mapMOpt_mono _ (fun kv => keyBits n (kf' kv)) ks kbits
+          (fun a _ b hb => keyBits_mono n _ _ (hk a) b hb) hm]
+        simp only [hm] at h ⊢
+        cases hz : zipKV kbits vs with
+        | none => simp [hz] at h
+        | some kvs =>
+          simp only [hz] at h ⊢
+          cases hmar : Hashmap.marshal (specCodec vf) n kvs with
+          | ok root =>
+            rw [Hashmap.marshal_mono_on (specCodec vf) (specCodec vf') n kvs root
+              (fun kv _ c hc => specCodec_mono vf vf' kv.2 (hv kv.2) c hc) hmar]
+            simpa [hmar] using h
+          | err e => simp [hmar] at h
+          | panic e => simp [hmar] at h
+
 theorem spec_mono (senv : SEnv) : ∀ f : Nat,
     (∀ S v c, specChunk senv f S v = some c → specChunk senv (f + 1) S v = some c) ∧
     (∀ fs v c, specFields senv f fs v = some c → specFields senv (f + 1) fs v = some c)
@@ -109,6 +173,28 @@ theorem spec_mono (senv : SEnv) : ∀ f : Nat,
         split at h
         · rw [specChunk_goPtr]; exact ihC _ _ _ h
         · cases h
+      | chainOf t =>
+        cases v <;> try (simp [specChunk] at h; done)
+        rename_i x rest
+        rw [specChunk_chain_cons] at h ⊢
+        cases hx : specChunk senv f t x with
+        | none => simp [hx, chainStep] at h
+        | some c0 =>
+          rw [ihC _ _ _ hx]
+          simp only [hx, chainStep] at h ⊢
+          split at h
+          · rename_i hr; rw [if_pos hr]; exact h
+          · rename_i hr; rw [if_neg hr]
+            obtain ⟨a, ha, hc⟩ := map_some_inv h
+            rw [ihC _ _ _ ha]; simpa using hc
+      | highloadDict =>
+        simp only [specChunk] at h ⊢
+        split at h
+        · exact ihC _ _ _ h
+        · cases h
+      | hashmapE n sk st =>
+        simp only [specChunk] at h ⊢
+        exact specDict_mono n _ _ _ _ v c (fun x c hx => ihC _ _ _ hx) (fun x c hx => ihC _ _ _ hx) h
       | _ => simpa only [specChunk] using h
     · intro fs v c h
       cases fs with
@@ -324,15 +410,6 @@ theorem agree_bytes {f k n : Nat} {S v b b'} (ha : agreeb env senv (k + 1) (.byt
   simp only [encode, hd, ↓reduceIte, Builder.writeBytes] at he
   refine SpecOK.leaf ?_ (Builder.writeBits_ok he)
   simp [specChunk, hd, ha]
-
-theorem agree_dictE {f k : Nat} {id : String} {S v b b'} (ha : agreeb env senv (k + 1) (.dictE id) S = true)
-    (hd : inDom env (f + 1) (.dictE id) v = true) (he : encode env (f + 1) (.dictE id) v b = .ok b') :
-    SpecOK senv S v b b' := by
-  cases S <;> simp only [agreeb, Bool.false_eq_true] at ha
-  cases v <;> simp only [inDom, Bool.false_eq_true] at hd
-  simp only [encode, Builder.writeBit] at he
-  exact SpecOK.leaf (by simp [specChunk]) (Builder.writeBits_ok he)
-
 
 theorem app_bit_app (b : Builder) (x : Bool) (xs : List Bool) (rs : List Cell) :
     (b.app [x] []).app xs rs = b.app (x :: xs) rs := by
@@ -666,6 +743,39 @@ theorem spec_msgAddress (v : Val) (b b' : Builder) (hd : Prim.msgAddress.inDom v
     rfl
 
 
+theorem tag_w5 : tagBits "#0ec3c86d" = natToBits 32 Prim.w5Magic := by decide
+
+theorem spec_outList : ∀ (v : Val) (b b' : Builder), Prim.w5Dom v = true → Prim.encW5Actions v b = .ok b' →
+    ∃ c, specOutList v = some c ∧ b' = b.app c.1 c.2
+  | .nil, b, b', _, he => by
+    simp only [Prim.encW5Actions] at he; cases he
+    exact ⟨([], []), rfl, by simp⟩
+  | .cons (.cons .magic (.cons (.int mode) (.cons (.cons (.cell c) .nil) .nil))) rest, b, b', hd, he => by
+    simp only [Prim.w5Dom, Bool.and_eq_true, decide_eq_true_eq] at hd
+    obtain ⟨⟨⟨⟨_, _⟩, h0⟩, h1⟩, hr⟩ := hd
+    simp only [Prim.encW5Actions] at he
+    obtain ⟨b1, hb1, he⟩ := bind_ok_inv he
+    obtain ⟨b2, hb2, he⟩ := bind_ok_inv he
+    obtain ⟨child, hch, he⟩ := bind_ok_inv he
+    obtain ⟨b3, hb3, he⟩ := bind_ok_inv he
+    have e1 := writeUint_spec b b1 _ 32 (by omega) hb1
+    have e2 := writeUint_spec b1 b2 _ 8 (by omega) hb2
+    have e3 := Builder.addRef_ok hb3
+    have e4 := Builder.addRef_ok he
+    obtain ⟨pc, hpc, hcb⟩ := spec_outList rest Builder.empty child hr hch
+    refine ⟨(tagBits "#0ec3c86d" ++ natToBits 8 mode.toNat, [Cell.mk 0 0 pc.1 pc.2, c]), ?_, ?_⟩
+    · simp only [specOutList, h0, h1, and_self, ↓reduceIte, hpc, Option.map_some]
+    · rw [e4, e3, e2, e1, hcb, tag_w5]
+      simp [Builder.app, Builder.empty, Builder.toCell]
+  | .int _, _, _, hd, _ => by simp [Prim.w5Dom] at hd
+  | .bool _, _, _, hd, _ => by simp [Prim.w5Dom] at hd
+  | .bytes _, _, _, hd, _ => by simp [Prim.w5Dom] at hd
+  | .bits _, _, _, hd, _ => by simp [Prim.w5Dom] at hd
+  | .cell _, _, _, hd, _ => by simp [Prim.w5Dom] at hd
+  | .sym _, _, _, hd, _ => by simp [Prim.w5Dom] at hd
+  | .none, _, _, hd, _ => by simp [Prim.w5Dom] at hd
+  | .magic, _, _, hd, _ => by simp [Prim.w5Dom] at hd
+
 theorem spec_payloadItems (v : Val) : ∀ (b b' : Builder), Prim.payloadDom v = true →
     Prim.encPayloadItems v b = .ok b' → ∃ c, specPayloadItems v = some c ∧ b' = b.app c.1 c.2 := by
   fun_induction Prim.payloadDom v with
@@ -788,6 +898,67 @@ theorem agree_prim {f : Nat} {p : Prim} {S v b b'} (ha : agreePrim p S = true)
     simp only [Prim.encPayloadV1toV4, if_neg (by omega : ¬ Prim.valLen v > 4)] at he'
     obtain ⟨c, hs, hb⟩ := spec_payloadItems v b b' hd'.2 he'
     exact ⟨1, c, by simp [specChunk, hd'.1, hs], hb⟩
+  · -- wallet v5 out-list
+    have hd' : Prim.w5Dom v = true := by cases v <;> simpa [Prim.inDom] using hd
+    have he' : Prim.encW5Actions v b = .ok b' := by
+      cases v <;> first | exact he | (simp [Prim.w5Dom] at hd')
+    obtain ⟨c, hs, hb⟩ := spec_outList v b b' hd' he'
+    exact ⟨1, c, by simp [specChunk, hs], hb⟩
+  · -- AccountStatus
+    rename_i cs
+    simp only [beq_iff_eq] at ha; subst ha
+    cases v <;> simp only [Prim.inDom, Bool.false_eq_true] at hd
+    rename_i bs
+    simp only [Bool.or_eq_true, beq_iff_eq] at hd
+    simp only [Prim.enc] at he
+    rcases hd with ((rfl | rfl) | rfl) | rfl
+    · exact SpecOK.leaf (by simp only [specChunk]; rfl) (writeUint_spec b b' 0 2 (by omega) (by simpa [Prim.encAccountStatus] using he))
+    · exact SpecOK.leaf (by simp only [specChunk]; rfl) (writeUint_spec b b' 1 2 (by omega)
+        (by simpa [Prim.encAccountStatus, Prim.s_frozen, Prim.s_uninit] using he))
+    · exact SpecOK.leaf (by simp only [specChunk]; rfl) (writeUint_spec b b' 2 2 (by omega)
+        (by simpa [Prim.encAccountStatus, Prim.s_frozen, Prim.s_uninit, Prim.s_active] using he))
+    · exact SpecOK.leaf (by simp only [specChunk]; rfl) (writeUint_spec b b' 3 2 (by omega)
+        (by simpa [Prim.encAccountStatus, Prim.s_frozen, Prim.s_uninit, Prim.s_active, Prim.s_nonexist] using he))
+  · -- AccStatusChange
+    rename_i cs
+    simp only [beq_iff_eq] at ha; subst ha
+    cases v <;> simp only [Prim.inDom, Bool.false_eq_true] at hd
+    rename_i bs
+    simp only [Bool.or_eq_true, beq_iff_eq] at hd
+    simp only [Prim.enc] at he
+    rcases hd with (rfl | rfl) | rfl
+    · simp only [Prim.encAccStatusChange, ↓reduceIte, Builder.writeBit] at he
+      exact SpecOK.leaf (by simp only [specChunk]; rfl) (Builder.writeBits_ok he)
+    · simp only [Prim.encAccStatusChange, Prim.s_acst_frozen, Prim.s_acst_unchanged, Prim.s_acst_deleted,
+        Builder.writeBit] at he
+      have he : (b.writeBits [true] >>= fun b1 => b1.writeBits [false]) = .ok b' := by simpa using he
+      rw [writeBits_writeBits] at he
+      exact SpecOK.leaf (by simp only [specChunk]; rfl) (Builder.writeBits_ok he)
+    · simp only [Prim.encAccStatusChange, Prim.s_acst_frozen, Prim.s_acst_unchanged, Prim.s_acst_deleted,
+        Builder.writeBit] at he
+      have he : (b.writeBits [true] >>= fun b1 => b1.writeBits [true]) = .ok b' := by simpa using he
+      rw [writeBits_writeBits] at he
+      exact SpecOK.leaf (by simp only [specChunk]; rfl) (Builder.writeBits_ok he)
+  · -- ComputeSkipReason
+    rename_i cs
+    simp only [beq_iff_eq] at ha; subst ha
+    cases v <;> simp only [Prim.inDom, Bool.false_eq_true] at hd
+    rename_i bs
+    simp only [Bool.or_eq_true, beq_iff_eq] at hd
+    simp only [Prim.enc] at he
+    rcases hd with ((rfl | rfl) | rfl) | rfl
+    · exact SpecOK.leaf (by simp only [specChunk]; rfl) (writeUint_spec b b' 0 2 (by omega) (by simpa [Prim.encComputeSkipReason] using he))
+    · exact SpecOK.leaf (by simp only [specChunk]; rfl) (writeUint_spec b b' 1 2 (by omega)
+        (by simpa [Prim.encComputeSkipReason, Prim.s_cskip_no_state, Prim.s_cskip_bad_state] using he))
+    · exact SpecOK.leaf (by simp only [specChunk]; rfl) (writeUint_spec b b' 2 2 (by omega)
+        (by simpa [Prim.encComputeSkipReason, Prim.s_cskip_no_state, Prim.s_cskip_bad_state, Prim.s_cskip_no_gas]
+          using he))
+    · simp only [Prim.encComputeSkipReason, Prim.s_cskip_no_state, Prim.s_cskip_bad_state, Prim.s_cskip_no_gas,
+        Prim.s_cskip_suspended, Builder.writeUint] at he
+      have he : (b.writeBits (natToBits 2 3) >>= fun b1 => b1.writeBits (natToBits 1 0)) = .ok b' := by
+        simpa using he
+      rw [writeBits_writeBits] at he
+      exact SpecOK.leaf (by simp only [specChunk]; rfl) (Builder.writeBits_ok he)
 
 end
 
@@ -955,6 +1126,171 @@ theorem fields_spec {f k : Nat} (h : SInv env senv f) {fs sfs v b b'}
           specFields_mono (Nat.le_max_right g1 g2) hc2]
       · rw [hb2, hb1, Builder.app_app]; rfl
 
+theorem common_fuel {α} (P : Nat → α → Prop) (hmono : ∀ g g' a, g ≤ g' → P g a → P g' a) :
+    ∀ l : List α, (∀ a ∈ l, ∃ g, P g a) → ∃ G, ∀ a ∈ l, P G a
+  | [], _ => ⟨0, fun _ h => by simp at h⟩
+  | a :: as, h => by
+    obtain ⟨g1, h1⟩ := h a (List.mem_cons_self ..)
+    obtain ⟨g2, h2⟩ := common_fuel P hmono as (fun a' ha' => h a' (List.mem_cons_of_mem _ ha'))
+    refine ⟨max g1 g2, fun x hx => ?_⟩
+    rcases List.mem_cons.1 hx with rfl | hx
+    · exact hmono _ _ _ (Nat.le_max_left ..) h1
+    · exact hmono _ _ _ (Nat.le_max_right ..) (h2 x hx)
+
+theorem mapM_to_opt {α β} (f : α → Outcome β) (g : α → Option β) : ∀ (l : List α) (r : List β),
+    (∀ a ∈ l, ∀ b ∈ r, f a = .ok b → g a = some b) → mapMOutcome f l = .ok r → mapMOpt g l = some r
+  | [], r, _, h => by simp only [mapMOutcome] at h; cases h; rfl
+  | a :: as, r, hon, h => by
+    simp only [mapMOutcome] at h
+    obtain ⟨b, hb, h2⟩ := bind_ok_inv h
+    obtain ⟨bs, hbs, h3⟩ := bind_ok_inv h2
+    cases h3
+    have h1 := hon a (List.mem_cons_self ..) b (List.mem_cons_self ..) hb
+    have h2 := mapM_to_opt f g as bs
+      (fun a' ha' b' hb' => hon a' (List.mem_cons_of_mem _ ha') b' (List.mem_cons_of_mem _ hb')) hbs
+    simp only [mapMOpt, h1, h2]
+
+/-- wallet.PayloadHighload -/
+theorem agree_highload {f k : Nat} (h : SInv env senv f) {S v b b'}
+    (ha : agreeb env senv (k + 1) .highload S = true)
+    (hd : inDom env (f + 1) .highload v = true) (he : encode env (f + 1) .highload v b = .ok b') :
+    SpecOK senv S v b b' := by
+  cases S <;> simp only [agreeb, Bool.false_eq_true] at ha
+  simp only [inDom, Bool.and_eq_true, decide_eq_true_eq] at hd
+  obtain ⟨⟨hlen, _⟩, hd⟩ := hd
+  simp only [encode, if_neg (by omega : ¬ Prim.valLen v > 254)] at he
+  cases hdv : hlToDict v with
+  | none => simp [hdv] at hd
+  | some d =>
+    simp only [hdv] at hd he
+    have hag : agreeb env senv 2 (.dictE (.uint 16) (.prim .any)) (.hashmapE 16 (.nat 16) .any) = true := by
+      simp [agreeb, agreePrim, keyWidth]
+    obtain ⟨g, c, hc, hb⟩ := h.enc 2 _ _ d b b' hag hd he
+    exact ⟨g + 1, c, by simp only [specChunk, hdv, hc], hb⟩
+
+/-- a reference chain (wallet.W5ExtendedActions) -/
+theorem agree_chain {f k : Nat} (h : SInv env senv f) {e S v b b'}
+    (ha : agreeb env senv (k + 1) (.chain e) S = true)
+    (hd : inDom env (f + 1) (.chain e) v = true) (he : encode env (f + 1) (.chain e) v b = .ok b') :
+    SpecOK senv S v b b' := by
+  have ha0 := ha
+  cases S <;> simp only [agreeb, Bool.false_eq_true] at ha
+  rename_i s
+  cases v <;> try (simp [inDom] at hd; done)
+  rename_i x rest
+  simp only [inDom, Bool.and_eq_true, Bool.or_eq_true] at hd
+  obtain ⟨hdx, hdr⟩ := hd
+  simp only [encode] at he
+  obtain ⟨b1, hb1, he⟩ := bind_ok_inv he
+  obtain ⟨g1, c1, hc1, hbb1⟩ := h.enc k e s x b b1 ha hdx hb1
+  by_cases hr : rest = .nil
+  · subst hr
+    simp only at he
+    cases he
+    refine ⟨g1 + 1, c1, ?_, hbb1⟩
+    rw [specChunk_chain_cons, hc1]; rfl
+  · have hdr' : inDom env f (.chain e) rest = true := by
+      rcases hdr with h1 | h1
+      · cases rest <;> first | exact absurd rfl hr | simp [Val.isNil] at h1
+      · exact h1
+    have he' : (encode env f (.chain e) rest Builder.empty >>= fun child => b1.addRef child.toCell) = .ok b' := by
+      cases rest <;> first | exact he | exact absurd rfl hr
+    obtain ⟨child, hch, he2⟩ := bind_ok_inv he'
+    have e2 := Builder.addRef_ok he2
+    obtain ⟨g2, c2, hc2, hbb2⟩ := h.enc (k + 1) (.chain e) (.chainOf s) rest _ child ha0 hdr' hch
+    refine ⟨max g1 g2 + 1, (c1.1, c1.2 ++ [Cell.mk 0 0 c2.1 c2.2]), ?_, ?_⟩
+    · have h1 := specChunk_mono (Nat.le_max_left g1 g2) hc1
+      have h2 := specChunk_mono (Nat.le_max_right g1 g2) hc2
+      have hn : rest.isNil = false := by cases rest <;> first | exact absurd rfl hr | rfl
+      rw [specChunk_chain_cons, h1, h2]
+      simp only [chainStep, hn, Bool.false_eq_true, ↓reduceIte, Option.map_some]
+    · rw [e2, hbb1, hbb2, Builder.app_app]
+      simp [Builder.empty, Builder.app, Builder.toCell]
+
+/-- a dictionary: the keys and the values are written as the schema says, and the tree around them is C05's -/
+theorem agree_dictE {f k : Nat} (h : SInv env senv f) {kt t S v b b'}
+    (ha : agreeb env senv (k + 1) (.dictE kt t) S = true)
+    (hd : inDom env (f + 1) (.dictE kt t) v = true) (he : encode env (f + 1) (.dictE kt t) v b = .ok b') :
+    SpecOK senv S v b b' := by
+  cases S <;> simp only [agreeb, Bool.false_eq_true] at ha
+  rename_i n sk st
+  simp only [Bool.and_eq_true, beq_iff_eq] at ha
+  obtain ⟨⟨hn, hak⟩, hat⟩ := ha
+  simp only [inDom, hn] at hd
+  simp only [encode, hn] at he
+  cases hp : dictParts v with
+  | none => simp [dictDom, hp] at hd
+  | some p =>
+    obtain ⟨ks, vs⟩ := p
+    simp only [dictDom, hp] at hd
+    simp only [hp] at he
+    simp only [Bool.and_eq_true, beq_iff_eq, List.all_eq_true] at hd
+    obtain ⟨⟨⟨⟨⟨⟨hlen, hshape⟩, hkd⟩, hvd⟩, hkr⟩, hkb⟩, hvfit⟩ := hd
+    by_cases hemp : ks.isEmpty = true
+    · rw [if_pos hemp] at he
+      simp only [Builder.writeBit] at he
+      refine SpecOK.leaf ?_ (Builder.writeBits_ok he)
+      simp only [specChunk, specDict, hp, hemp, ↓reduceIte]
+    · rw [if_neg hemp] at he
+      obtain ⟨b1, hb1, he⟩ := bind_ok_inv he
+      simp only [Builder.writeBit] at hb1
+      have hb1 := Builder.writeBits_ok hb1
+      obtain ⟨kbits, hkb', he⟩ := bind_ok_inv he
+      rw [hkb'] at hkb
+      simp only [Bool.and_eq_true, List.all_eq_true, beq_iff_eq] at hkb
+      have hklen : kbits.length = vs.length := by rw [mapM_length _ _ _ hkb']; exact hlen
+      cases hz : zipKV kbits vs with
+      | none => rw [hz] at he; cases he
+      | some kvs =>
+        simp only [hz] at he
+        obtain ⟨root, hm, he⟩ := bind_ok_inv he
+        have hb' := Builder.addRef_ok he
+        obtain ⟨hk1, hk2⟩ := zipKV_spec kbits vs kvs hklen hz
+        -- one fuel for all keys and all values
+        obtain ⟨G1, hG1⟩ := common_fuel
+          (fun g kv => ∀ kb, encode env f kt kv Builder.empty = .ok kb → specChunk senv g sk kv = some (kb.bits, kb.refs))
+          (fun g g' a hgg hP kb hkb => specChunk_mono hgg (hP kb hkb)) ks (by
+            intro kv hkv
+            cases hek : encode env f kt kv Builder.empty with
+            | ok kb =>
+              obtain ⟨g, c, hc, hbb⟩ := h.enc k kt sk kv _ kb hak (hkd kv hkv) hek
+              refine ⟨g, fun kb' hkb' => ?_⟩
+              cases hkb'
+              rw [hc, hbb]; simp [Builder.app, Builder.empty]
+            | err e => exact ⟨0, fun kb' hkb' => by cases hkb'⟩
+            | panic e => exact ⟨0, fun kb' hkb' => by cases hkb'⟩)
+        obtain ⟨G2, hG2⟩ := common_fuel
+          (fun g x => ∀ vb, encode env f t x Builder.empty = .ok vb → specChunk senv g st x = some (vb.bits, vb.refs))
+          (fun g g' a hgg hP vb hvb => specChunk_mono hgg (hP vb hvb)) vs (by
+            intro x hx
+            cases hex : encode env f t x Builder.empty with
+            | ok vb =>
+              obtain ⟨g, c, hc, hbb⟩ := h.enc k t st x _ vb hat (hvd x hx) hex
+              refine ⟨g, fun vb' hvb' => ?_⟩
+              cases hvb'
+              rw [hc, hbb]; simp [Builder.app, Builder.empty]
+            | err e => exact ⟨0, fun vb' hvb' => by cases hvb'⟩
+            | panic e => exact ⟨0, fun vb' hvb' => by cases hvb'⟩)
+        refine ⟨max G1 G2 + 1, ([true], [root]), ?_, by rw [hb', hb1]; simp [Builder.app]⟩
+        have hkeys : mapMOpt (fun kv => keyBits n (specChunk senv (max G1 G2) sk kv)) ks = some kbits := by
+          refine mapM_to_opt _ _ ks kbits ?_ hkb'
+          intro kv hkv kb hkbm hkb2
+          obtain ⟨kbld, hkbld, hkb3⟩ := bind_ok_inv hkb2
+          cases hkb3
+          have hr := hkr kv hkv
+          rw [hkbld] at hr
+          rw [specChunk_mono (Nat.le_max_left G1 G2) (hG1 kv hkv kbld hkbld)]
+          simp only [keyBits, hkb.1 _ hkbm, hr, and_self, ↓reduceIte]
+        have hmar : Hashmap.marshal (specCodec fun x => specChunk senv (max G1 G2) st x) n kvs = .ok root := by
+          refine Hashmap.marshal_mono_on _ _ n kvs root ?_ hm
+          intro kv hkv c hc
+          have hx : kv.2 ∈ vs := by rw [← hk2]; exact List.mem_map_of_mem hkv
+          simp only [valueCodecEnc] at hc
+          obtain ⟨vb, hvb, hc⟩ := bind_ok_inv hc
+          cases hc
+          simp only [specCodec, specChunk_mono (Nat.le_max_right G1 G2) (hG2 kv.2 hx vb hvb)]
+        simp only [specChunk, specDict, hp, hemp, Bool.false_eq_true, ↓reduceIte, hkeys, hz, hmar]
+
 theorem SInv.succ {f : Nat} (h : SInv env senv f) : SInv env senv (f + 1) := by
   refine ⟨?_, ?_, ?_⟩
   · intro k T S v b b' ha hd he
@@ -975,7 +1311,14 @@ theorem SInv.succ {f : Nat} (h : SInv env senv f) : SInv env senv (f + 1) := by
     | eitherRef t => exact agree_eitherRef h ha hd he
     | refT t => exact agree_refT h ha hd he
     | prim p => exact agree_prim (by simpa [agreeb] using ha) hd he
-    | dictE id => exact agree_dictE ha hd he
+    | dictE kt t => exact agree_dictE h ha hd he
+    | dict kt t => simp [agreeb] at ha
+    | chain e => exact agree_chain h ha hd he
+    | highload => exact agree_highload h ha hd he
+    | dictAugE k t x => simp [agreeb] at ha
+    | dictAug k t x => simp [agreeb] at ha
+    | binTree t => simp [agreeb] at ha
+    | custom id body aux => simp [agreeb] at ha
     | cell => simp [agreeb] at ha
     | magic t => simp [agreeb] at ha
     | vmStack e => simp [agreeb] at ha
